@@ -43,11 +43,24 @@ def run_get(resolver, start, path):
         return ("crash", type(exc).__name__, exc)
 
 
+_RESOLVERS = {}
+
+
+def resolver(pathattr, ic, relax):
+    """Resolver objects are kept for the whole process: results must not depend on what an instance did before."""
+    key = (pathattr, ic, relax)
+    if key not in _RESOLVERS:
+        _RESOLVERS[key] = [Resolver(pathattr, ignorecase=ic, relax=relax), Resolver(pathattr, ic, relax)]
+    pair = _RESOLVERS[key]
+    pair.reverse()
+    return pair[0]
+
+
 def check_path(case, nodes, labels, start, path, acc):
     sep, pathattr, ic = case["sep"], case["pathattr"], case["ignorecase"]
     exp = rr.ref_get(start, path, sep, pathattr, ic)
-    strict = run_get(Resolver(pathattr, ignorecase=ic), start, path)
-    relaxed = run_get(Resolver(pathattr, ignorecase=ic, relax=True), start, path)
+    strict = run_get(resolver(pathattr, ic, False), start, path)
+    relaxed = run_get(resolver(pathattr, ic, True), start, path)
     ctx = "get(%s, %r) sep=%r pathattr=%s ignorecase=%s names=%s" % (labels.label(start), path, sep, pathattr, ic, case["names"])
     if exp[0] == "node":
         if strict[0] != "node" or strict[1] is not exp[1]:
